@@ -56,6 +56,12 @@ pub struct Interpreter<TStdlib: Stdlib, TStdIn: Input, TStdOut: Printer, TLpt1: 
     /// Holds addresses to jump back to
     return_address_stack: Vec<usize>,
 
+    /// For every return address, the heights of the register stack and of the
+    /// GOSUB address stack at the time of the call: a procedure that is left
+    /// from inside a loop body reached by GOSUB (EXIT SUB in a GOSUB routine)
+    /// must not leave its register frames and GOSUB addresses behind
+    return_marks: Vec<(usize, usize)>,
+
     /// Holds addresses to RETURN to after a GOSUB
     go_sub_address_stack: Vec<usize>,
 
@@ -278,6 +284,7 @@ impl<TStdlib: Stdlib, TStdIn: Input, TStdOut: Printer, TLpt1: Printer>
             screen: Box::new(screen),
             context: Context::new(),
             return_address_stack: vec![],
+            return_marks: vec![],
             go_sub_address_stack: vec![],
             register_stack: vec![Registers::new()],
             stacktrace: vec![],
@@ -463,9 +470,15 @@ impl<TStdlib: Stdlib, TStdIn: Input, TStdOut: Printer, TLpt1: Printer>
             }
             Instruction::PushRet(address) => {
                 self.return_address_stack.push(*address);
+                self.return_marks
+                    .push((self.register_stack.len(), self.go_sub_address_stack.len()));
             }
             Instruction::PopRet => {
                 let address = self.return_address_stack.pop().unwrap();
+                if let Some((registers, go_subs)) = self.return_marks.pop() {
+                    self.register_stack.truncate(registers);
+                    self.go_sub_address_stack.truncate(go_subs);
+                }
                 ctx.opt_next_index = Some(address);
             }
             Instruction::GoSub(address_or_label) => {
@@ -507,6 +520,11 @@ impl<TStdlib: Stdlib, TStdIn: Input, TStdOut: Printer, TLpt1: Printer>
                 self.context.unwind_to_global();
                 self.stacktrace.clear();
                 self.return_address_stack.clear();
+                if let Some((registers, go_subs)) = self.return_marks.first().copied() {
+                    self.register_stack.truncate(registers);
+                    self.go_sub_address_stack.truncate(go_subs);
+                }
+                self.return_marks.clear();
             }
             Instruction::Throw(interpreter_error) => {
                 return Err(interpreter_error.clone()).with_err_at(&pos);
